@@ -6,6 +6,24 @@ KF_FS = 'label-omits-required-records'
 KF_NESTED = cv_checks.KF_NESTED
 KF_DENSE = 'label-omits-record-in-dense-cluster'
 KF_UNION = 'label-unions-exclusive-records'
+KF_TWIN = 'spurious-entry-beside-correct-twin'
+
+
+def has_correct_twin(r, w, comp) -> bool:
+    """the same peptide has ANOTHER header entry, accepted by the Lean witness predicate, that
+    names exactly this entry's records plus the omitted ones (same SECT / W2F reading)"""
+    if not w[0] or not comp or not comp.startswith('extra:') or comp == 'extra:':
+        return False
+    f = w[0].split('\t')
+    want = set(x for x in f[4].split(',') if x) | set(comp[6:].split(','))
+    rejected = {x[2] for x in r.get('witness_no', [])}
+    for o in r['witness']:
+        if not o[0] or o[2] == w[2] or o[1] != w[1] or o[2] in rejected:
+            continue
+        g = o[0].split('\t')
+        if g[:4] == f[:4] and g[5:] == f[5:] and set(x for x in g[4].split(',') if x) == want:
+            return True
+    return False
 
 
 def stop_lost_inframe(r, extra) -> bool:
@@ -42,10 +60,12 @@ def judge(ctx, res, stream):
             if len(f) == 6:
                 for one in f[5].split('+'):
                     idnames.setdefault(int(one), (int(f[0]), int(f[1]), f[2], f[3]))
-        for (_line, seq, entry, problem, *_rest) in r['witness_no'][:3]:
+        for w_ in r['witness_no'][:3]:
+            (_line, seq, entry, problem, *_rest) = w_
             comp = r.get('witness_completion', {}).get(entry)
             key = None
             how = ''
+            twin = has_correct_twin(r, w_, comp)
             if comp and comp.startswith('extra:') and comp != 'extra:':
                 extra = [idnames.get(int(x)) for x in comp[6:].split(',')]
                 how = f' (it becomes one when the records {extra} are added)'
@@ -56,6 +76,12 @@ def judge(ctx, res, stream):
                     # at the peptide's edge): the unchanged tree names such records
                     how += '; an omitted record lies directly at the edge of the peptide (cleavage gain / loss)'
                     key = None
+                    if twin:
+                        # known class: the peptide ALSO has the correct entry (this entry's records
+                        # plus the omitted one); the spurious second entry comes and goes with the
+                        # hash seed of the run
+                        how += '; the same peptide also carries the correct entry with the omitted record'
+                        key = KF_TWIN
                 elif stop_lost_inframe(r, extra):
                     how += '; an omitted in-frame record removes the annotated stop codon (read-through)'
                     key = None
